@@ -145,13 +145,21 @@ def run(ctx: core.Ctx) -> None:
                         "the view graph (CRNCanonicalizer.G / CRNAutomorphism.G) is taken from the code (its correctness is C16); 'identical' canonical graphs means equal node ids, arcs and selected attribute values",
                         "selected attributes: kind; role, stoich (canonicaliser) and kind with adjacency/direction only (CRNAutomorphism), as documented"]
     q, rng = ctx.quick, ctx.rng
-    gen = core.tlc_generate(ctx, "NetGen", {"MaxCoef": "1" if q else "2", "MaxRx": "2", "Dup": "FALSE"}, label="exhaustive")
+    gen = core.tlc_generate(ctx, "NetGen", {"MaxCoef": "1", "MaxRx": "2", "Dup": "FALSE"}, label="exhaustive")
     nets = [crnlib.norm_net(n) for n in gen]
-    if len(nets) > (700 if q else 10 ** 9):
-        nets = rng.sample(nets, 700)
+    if q:
+        nets = rng.sample(nets, min(len(nets), 700))
     else:
         ctx.exhaustive = True
     core.run_stage(ctx, S("all-small-networks", [fam(n, rng, rng.choice(nets)) for n in nets]))
+    if not q:
+        # coefficients up to 2: 265k networks; a sample, executed and judged in batches (a worker holds its whole chunk of cases)
+        gen2 = core.tlc_generate(ctx, "NetGen", {"MaxCoef": "2", "MaxRx": "2", "Dup": "FALSE"}, label="coef<=2")
+        pick = rng.sample(range(len(gen2)), min(len(gen2), 20000))
+        nets2 = [crnlib.norm_net(gen2[k]) for k in pick]
+        del gen2
+        for b in range(0, len(nets2), 4000):
+            core.run_stage(ctx, S("small-networks-coef<=2", [fam(n, rng, rng.choice(nets2)) for n in nets2[b:b + 4000]]))
     sym = [ring(n) for n in (2, 3, 4, 5, 6, 6, 6)] + [ring(3, 2), crnlib.parse(["A>>B", "A>>C"]), crnlib.parse(["A+B>>C", "C>>A+B"]),
                                                crnlib.parse(["A>>B", "B>>A", "C>>D", "D>>C"]), crnlib.parse(["2A>>B", "2C>>B"]),
                                                crnlib.parse(["A+B>>C+D"]), crnlib.parse(["A>>B", "A>>B"])]
